@@ -103,6 +103,8 @@ def main():
         'flaky_verdicts': counts.get('flaky', 0),
         'violation_signature_counts': dict(sorted(sigs.items(), key=lambda kv: (-kv[1], kv[0]))),
     }
+    if counts.get('symboliser_mismatch', 0):
+        viols.append(vlib.Violation('harness|symboliser-mismatch', {'count': counts['symboliser_mismatch']}))
     if evaluations != counts.get('allocations_total', -1) and not any(v.signature.startswith('harness|') for v in viols):
         # every index must have been run exactly once (cases whose fault-free run already fails are not swept)
         swept = sum(n for c, n in per_case.items()
